@@ -313,7 +313,7 @@ def _assigned(stmts):
     return out
 
 
-def _merge(env, e1, e2, cond, names, nm):
+def _merge(env, e1, e2, cond, names, nm, hint=None):
     """after a compound statement: a name assigned in it is ite(cond; then-value; else-value) when the condition and both values are
     known (an if / else chain that only selects a value), otherwise an atom named after what it held before: phi(previous value)"""
     opaque = set()
@@ -323,6 +323,11 @@ def _merge(env, e1, e2, cond, names, nm):
             env[n] = ('ite', cond, e1[n], e2[n])
             continue
         opaque.add(n)
+        if n not in env and hint:
+            # a name first bound inside the statement: the atom is named after the one parameter the statement reads
+            # (`v = perf; if text: v = convert(v)` and `if text: v = convert(perf) else: v = perf` are the same conversion of perf)
+            env[n] = ('sym', 'phi(%s)' % hint)
+            continue
         try:
             env[n] = ('sym', 'phi(%s)' % canon(prev).show())
         except Unsupported:
@@ -401,16 +406,21 @@ def py_returns(fn, effects=None):
                     cond = py_cond(st.test, env)
                 except Unsupported:
                     cond = None
-                op_ = _merge(env, e1, e2, cond, _assigned([st]), jsast.camel)
+                op_ = _merge(env, e1, e2, cond, _assigned([st]), jsast.camel, _hint(st))
                 if not guards:
                     flush(op_)
             elif isinstance(st, (ast.For, ast.While, ast.Try, ast.With)):
                 inner = [st.body, getattr(st, 'orelse', [])] + [h.body for h in getattr(st, 'handlers', [])] + [getattr(st, 'finalbody', [])]
                 for b in inner:
                     block(b, dict(env), guards + ['?'])
-                op_ = _merge(env, None, None, None, _assigned([st]), jsast.camel)
+                op_ = _merge(env, None, None, None, _assigned([st]), jsast.camel, _hint(st))
                 if not guards:
                     flush(op_)
+    params = {a.arg for a in fn.args.args + fn.args.kwonlyargs} - {'self', 'cls'}
+
+    def _hint(st):
+        reads = {n.id for n in ast.walk(st) if isinstance(n, ast.Name) and isinstance(n.ctx, ast.Load) and n.id in params}
+        return jsast.camel(sorted(reads)[0]) if len(reads) == 1 else None
     block(fn.body, {}, [])
     return out
 
@@ -527,6 +537,8 @@ def _js_assigned(node):
             out.add(n['left']['name'])
         if n['type'] == 'VariableDeclarator' and n['id']['type'] == 'Identifier':
             out.add(n['id']['name'])
+        if n['type'] == 'VariableDeclarator' and n['id']['type'] == 'ArrayPattern':
+            out |= {el['name'] for el in n['id']['elements'] if el is not None and el['type'] == 'Identifier'}
         if n['type'] == 'UpdateExpression' and n['argument']['type'] == 'Identifier':
             out.add(n['argument']['name'])
     return out
@@ -567,6 +579,12 @@ def js_returns(fn, effects=None):
                 for d in st['declarations']:
                     if d['id']['type'] == 'Identifier' and d.get('init') is not None:
                         assign(d['id']['name'], '=', d['init'], env, guards)
+                    elif d['id']['type'] == 'ArrayPattern' and d.get('init') is not None:
+                        # const [a, b] = e  is  a = e[0], b = e[1]
+                        for i_, el in enumerate(d['id']['elements']):
+                            if el is not None and el['type'] == 'Identifier':
+                                assign(el['name'], '=', {'type': 'MemberExpression', 'computed': True, 'object': d['init'],
+                                                         'property': {'type': 'Literal', 'value': i_, 'raw': str(i_)}}, env, guards)
             elif t == 'ExpressionStatement' and st['expression']['type'] == 'AssignmentExpression' and st['expression']['left']['type'] == 'Identifier':
                 x = st['expression']
                 assign(x['left']['name'], x['operator'], x['right'], env, guards)
